@@ -4,8 +4,8 @@
    vleb is the node-value type's `<=` (a total preorder, as Rust's Ord guarantees). wl_loop_log is wl_loop instrumented
    to return, for every pop, (popped node, queue right after the pop, tree at that moment); wl_loop_log_erase shows it is
    the same machine. The heap property of the transcription (HeapOrd) is PROVED (coq/proofs/StdHeap.v), not monitored. *)
-From Gdsl.Model Require Import Spec Callback.
-From Gdsl.Proofs Require Import StdHeap Worklist Pfs SearchGlue.
+From Gdsl.Model Require Import Spec Callback SearchFind.
+From Gdsl.Proofs Require Import StdHeap Worklist Pfs SearchGlue SearchFindProof.
 
 (* the instrumented loop returns exactly what wl_loop returns *)
 Theorem c06_instrumentation_is_erasable :
@@ -185,7 +185,7 @@ Theorem c06_path_complete :
 Proof. exact pfs_path_complete. Qed.
 Print Assumptions c06_path_complete.
 
-(* search() returns the target node exactly when search_path() returns a path *)
+(* search() — the SEPARATELY transcribed find loops of the code (model/SearchFind.v: loop_*_find / recurse_*_find; for pfs `search_path().map(last_node)`) — returns the target node exactly when search_path() returns a path, and that node is where the path ends *)
 Theorem c06_search_agrees :
   forall (K V E : Type) (keqb : K -> K -> bool),
        KeqbSpec keqb ->
@@ -200,16 +200,29 @@ Theorem c06_search_agrees :
        k = KPfsMin \/ k = KPfsMax ->
        keyof h root <> Some t ->
        match snd (search_path keqb cb vleb k d fuel h c0 root (Some t) false) with
-       | RNone _ => snd (search_find keqb cb vleb k d fuel h c0 root (Some t)) = RNone E
+       | RNone _ => snd (search_find' keqb cb vleb k d fuel h c0 root (Some t)) = RNone E
        | RPath p =>
            exists (v : nat) (p0 : list (edge E)) (w : edge E),
-             snd (search_find keqb cb vleb k d fuel h c0 root (Some t)) = RNode E v /\
+             snd (search_find' keqb cb vleb k d fuel h c0 root (Some t)) = RNode E v /\
              p = p0 ++ [w] /\ edst w = v /\ keyof h v = Some t
-       | RFuel _ => snd (search_find keqb cb vleb k d fuel h c0 root (Some t)) = RFuel E
+       | RFuel _ => snd (search_find' keqb cb vleb k d fuel h c0 root (Some t)) = RFuel E
        | _ => False
        end.
-Proof. exact pfs_find_agrees. Qed.
+Proof. exact search_find'_agrees_pfs. Qed.
 Print Assumptions c06_search_agrees.
+
+(* for EVERY callback (no purity needed), heap, root, target and fuel: the find machine ends with the same verdict, the same heap, the same callback state (hence the same closure trace) and the same visited set as the path machine *)
+Theorem c06_find_loops_simulate_path_loops :
+  forall (K V E : Type) (keqb : K -> K -> bool) (CB : Type)
+         (cb : CB -> heap K V E -> edge E -> CB * heap K V E * bool) (vleb : V -> V -> bool) 
+         (k : kind) (d : dir) (fuel : nat) (h : heap K V E) (c : CB) (root : nat) 
+         (target : option K),
+       let x := search_find' keqb cb vleb k d fuel h c root target in
+       let y := run_search keqb cb vleb k d fuel h c root target false in
+       snd x = res_of_status E (snd y) /\
+       s_heap (fst x) = s_heap (fst y) /\ s_cb (fst x) = s_cb (fst y) /\ s_vis (fst x) = s_vis (fst y).
+Proof. exact find_machine_agrees. Qed.
+Print Assumptions c06_find_loops_simulate_path_loops.
 
 (* fuel_bound suffices *)
 Theorem c06_terminates :
